@@ -7,6 +7,7 @@ package libp2p
 // few microseconds of real time that pass are immaterial.
 
 import (
+	"reflect"
 	"sync"
 	"encoding/json"
 	"sort"
@@ -42,6 +43,28 @@ var c17Peers []peer.ID
 var c17Addr = map[common.Address]int{}
 
 func c17Init(t *testing.T) { c17Grow(t, 6) }
+
+// c17Block places a block through the Service's own blockPeer, whatever parameters it takes: the
+// peer, the term, the reason — and "now" for any moment in time it wants to be told
+func c17Block(s *Service, id peer.ID, d time.Duration, reason string) {
+	f := reflect.ValueOf(s.blockPeer)
+	var args []reflect.Value
+	for i := 0; i < f.Type().NumIn(); i++ {
+		switch f.Type().In(i) {
+		case reflect.TypeOf(id):
+			args = append(args, reflect.ValueOf(id))
+		case reflect.TypeOf(d):
+			args = append(args, reflect.ValueOf(d))
+		case reflect.TypeOf(reason):
+			args = append(args, reflect.ValueOf(reason))
+		case reflect.TypeOf(time.Time{}):
+			args = append(args, reflect.ValueOf(time.Now()))
+		default:
+			args = append(args, reflect.Zero(f.Type().In(i)))
+		}
+	}
+	f.Call(args)
+}
 
 var c17Rng *vrng
 
@@ -95,7 +118,7 @@ func c17Race(t *testing.T, rounds int) map[string]any {
 		start := make(chan struct{})
 		wg.Add(2)
 		go func() { defer wg.Done(); <-start; _ = g.InterceptSecured(network.DirInbound, id, nil) }()
-		go func() { defer wg.Done(); <-start; s.blockPeer(id, dur, "verif") }()
+		go func() { defer wg.Done(); <-start; c17Block(s, id, dur, "verif") }()
 		close(start)
 		wg.Wait()
 		if !s.isBlocked(id) {
@@ -126,7 +149,7 @@ func c17Run(t *testing.T, in c17In) (res []c17Ans) {
 		id := c17Peers[op.ID]
 		switch op.T {
 		case "block":
-			s.blockPeer(id, time.Duration(op.Dur), "verif")
+			c17Block(s, id, time.Duration(op.Dur), "verif")
 			res = append(res, c17Ans{T: "none"})
 		case "advance":
 			s.blockMu.Lock()
